@@ -121,6 +121,9 @@ type Oblig struct {
 	Expect string // "unsat" (proof) or "sat" (cover)
 	Script string
 	Alt    string
+	Cand   string
+	info   *replayInfo
+	inLoop bool
 	Res    SolveResult
 	Slow   bool
 }
@@ -181,6 +184,16 @@ func (r *Run) addOblig(o *Oblig) {
 	}
 	if o.Expect == "" {
 		o.Expect = "unsat"
+	}
+	if r.top != nil && r.top.cur != nil {
+		for _, li := range r.top.loops {
+			if li.blocks[r.top.cur] {
+				o.inLoop = true
+			}
+		}
+	}
+	if strings.HasPrefix(o.Kind, "inv.") || o.Kind == "dec" {
+		o.inLoop = true
 	}
 	r.obls = append(r.obls, o)
 }
